@@ -27,6 +27,7 @@
 (*                                                                         *)
 (* One action per file-system step persist_snapshot performs (PStep, named *)
 (* by the hook point reached after the step), Import / Ack (the handler),  *)
+(* RejectDirect / BadUpload / Refuse (uploads the handler refuses),        *)
 (* Crash, PowerLoss, Restart.  The order of the steps is NOT fixed here:   *)
 (* MC_FsPersist runs a program (sequence of step names), the trace         *)
 (* specification follows the steps the real code performed.                *)
@@ -34,7 +35,8 @@
 (* Property C14 (RestartOK): the graph restored by a restart is the graph  *)
 (* as of the last acknowledged import or as of the import that was being   *)
 (* persisted when the crash happened; a restart without a crash in flight  *)
-(* restores every acknowledged import.                                     *)
+(* restores every acknowledged import -- in particular a REFUSED upload    *)
+(* must leave the persisted state untouched.                               *)
 (***************************************************************************)
 EXTENDS Naturals, Sequences, FiniteSets
 
@@ -56,19 +58,20 @@ VARIABLES dir, ddir, pend, vol, dur,       \* the file system
                      \* at the last acknowledgement}; after a restart that has not been followed by an
                      \* acknowledgement yet, every graph that restart was allowed to restore (a later power loss
                      \* may still fall back from a restored, never acknowledged import to the acknowledged one)
+          bad,       \* the request in flight carries an upload the import refuses (valid header, broken body)
           allowed,   \* graphs the next restart may restore (fixed when the process goes down)
           fresh      \* the process has just been restarted (mem is what the restart restored)
 
 fsvars == <<dir, ddir, pend, vol, dur>>
-pvars == <<up, busy, cur, nimp, mem, okG, allowed, fresh>>
-fpvars == <<dir, ddir, pend, vol, dur, up, busy, cur, nimp, mem, okG, allowed, fresh>>
+pvars == <<up, busy, cur, nimp, mem, okG, bad, allowed, fresh>>
+fpvars == <<dir, ddir, pend, vol, dur, up, busy, cur, nimp, mem, okG, bad, allowed, fresh>>
 
 NoDir == [n \in Names |-> 0]
 Inodes == DOMAIN vol
 
 FPInit == /\ dir = NoDir /\ ddir = NoDir /\ pend = <<>> /\ vol = <<>> /\ dur = <<>>
           /\ up = TRUE /\ busy = FALSE /\ cur = 0 /\ nimp = 0 /\ mem = {} /\ okG = {{}}
-          /\ allowed = {{}} /\ fresh = FALSE
+          /\ allowed = {{}} /\ fresh = FALSE /\ bad = FALSE
 
 \* ------------------------------------------------------------------ file-system primitives
 \* unlink(name); the code ignores ENOENT
@@ -164,8 +167,28 @@ Import(k) ==
     /\ up /\ ~busy /\ k = nimp + 1 /\ k <= MaxImp
     /\ nimp' = k /\ cur' = k /\ busy' = TRUE
     /\ mem' = mem \cup {k}
-    /\ fresh' = FALSE
+    /\ fresh' = FALSE /\ bad' = FALSE
     /\ UNCHANGED <<dir, ddir, pend, vol, dur, up, okG, allowed>>
+
+\* An upload the handler REFUSES (4xx, never acknowledged): garbage, or a snapshot with a valid header and a
+\* truncated / corrupt body.  The design answers without touching anything ...
+RejectDirect ==
+    /\ up /\ ~busy
+    /\ UNCHANGED fpvars
+\* ... an implementation may nevertheless have entered persist_snapshot with the broken bytes before the
+\* import found out (the live graph never contains the upload); what it does to the directory is then
+\* followed step by step, and the next restart is judged by the property like any other
+BadUpload(k) ==
+    /\ up /\ ~busy
+    /\ cur' = k /\ busy' = TRUE /\ bad' = TRUE /\ fresh' = FALSE
+    /\ UNCHANGED <<dir, ddir, pend, vol, dur, up, nimp, mem, okG, allowed>>
+\* the bytes of a refused upload: not a graph any restore can read
+BadContent == [st |-> "torn", g |-> {}, ig |-> {}]
+\* the request in flight is answered 4xx
+Refuse ==
+    /\ up /\ busy /\ bad
+    /\ busy' = FALSE /\ cur' = 0 /\ bad' = FALSE
+    /\ UNCHANGED <<dir, ddir, pend, vol, dur, up, nimp, mem, okG, allowed, fresh>>
 
 \* one file-system step of persist_snapshot, named by the hook point reached after it;
 \* c is the content written by the "tmp_written" step
@@ -195,11 +218,11 @@ KF_C14_OnlyLastImportKept == {cur} # mem /\ PStep("tmp_written", LastOnlyContent
 
 \* second half of the request: persist_snapshot returned, 200 is sent
 Ack ==
-    /\ up /\ busy
+    /\ up /\ busy /\ ~bad
     /\ busy' = FALSE /\ cur' = 0 /\ okG' = {mem}
-    /\ UNCHANGED <<dir, ddir, pend, vol, dur, up, nimp, mem, allowed, fresh>>
+    /\ UNCHANGED <<dir, ddir, pend, vol, dur, up, nimp, mem, bad, allowed, fresh>>
 
-GoDown == /\ up' = FALSE /\ busy' = FALSE /\ cur' = 0 /\ mem' = {} /\ okG' = {} /\ fresh' = FALSE
+GoDown == /\ up' = FALSE /\ busy' = FALSE /\ cur' = 0 /\ mem' = {} /\ okG' = {} /\ fresh' = FALSE /\ bad' = FALSE
           /\ allowed' = IF up THEN okG \cup (IF busy THEN {mem} ELSE {}) ELSE allowed
           /\ UNCHANGED nimp
 
@@ -222,7 +245,7 @@ PowerLoss(K, pick) ==
 Restart(r) ==
     /\ ~up
     /\ up' = TRUE /\ mem' = r /\ okG' = allowed \cup {r} /\ fresh' = TRUE
-    /\ UNCHANGED <<dir, ddir, pend, vol, dur, busy, cur, nimp, allowed>>
+    /\ UNCHANGED <<dir, ddir, pend, vol, dur, busy, cur, nimp, bad, allowed>>
 
 \* DEVIATION consequence: the restart restored exactly what the committed file holds, and that file
 \* would have satisfied the property had it been written with the whole live graph
@@ -240,7 +263,7 @@ TypeOK ==
     /\ \A n \in Names : dir[n] \in 0..Len(vol) /\ ddir[n] \in 0..Len(vol)
     /\ Len(vol) = Len(dur)
     /\ \A i \in DOMAIN vol : vol[i].st \in {"empty", "torn", "full"} /\ vol[i].g \subseteq 0..MaxImp
-    /\ mem \subseteq 0..MaxImp /\ cur \in 0..MaxImp /\ nimp \in 0..MaxImp
-    /\ busy => up
+    /\ mem \subseteq 0..MaxImp /\ cur \in Nat /\ nimp \in 0..MaxImp
+    /\ (busy => up) /\ (bad => busy)
     /\ \A n, m \in Names : n # m /\ dir[n] # 0 => dir[n] # dir[m]
 =============================================================================
